@@ -42,8 +42,12 @@ def shards(tier, seed):
     return campaign.tree_shards(TREES[tier], 1 if tier == "quick" else 4)
 
 
-def drive(repo, xml_root, out_root, mode="once", walk_seed=0, hashseed="0"):
+def drive(repo, xml_root, out_root, mode="once", walk_seed=0, hashseed="0", locale=None):
     env = dict(os.environ, PYTHONHASHSEED=str(hashseed), PYTHONDONTWRITEBYTECODE="1", PYTHONPATH=ROOT)
+    if locale:
+        # a process whose preferred encoding is not UTF-8 (the C locale, with Python's own UTF-8 rescue switched off)
+        env = {k: v for k, v in env.items() if not k.startswith("LC_") and k != "LANG"}
+        env.update(LC_ALL=locale, LANG=locale, PYTHONUTF8="0", PYTHONCOERCECLOCALE="0")
     r = subprocess.run([PY, "-B", "-m", "vf.mon.gen_driver", repo, xml_root, out_root, mode, str(walk_seed)], capture_output=True, text=True, env=env, cwd=ROOT, timeout=300)
     try:
         return json.loads(r.stdout.strip().splitlines()[-1])
@@ -142,6 +146,7 @@ def run_tree(rec, tier, seed, ti, spec, other):
         if tier == "thorough":
             configs += [("hashseed-%d" % h, dict(hashseed=str(h))) for h in (7, 11, 42, 1000)] + [("walk-shuffle-%d" % w, dict(walk_seed=w)) for w in (3, 5, 8, 13)]
         configs.append(("below-a-directory-named-eolib", {}))
+        configs.append(("posix-locale", dict(locale="C")))
         for cname, kw in configs:
             out = os.path.join(work, "out-" + cname)
             if cname == "below-a-directory-named-eolib":
